@@ -197,6 +197,17 @@ Theorem C14_checker_accepts_model_partial : forall np nc na ns evs,
 Proof. exact checker_accepts_model_partial. Qed.
 Print Assumptions C14_checker_accepts_model_partial.
 
+(* One transition clause is covered as well: the clause on addPeer's answer
+   (announced-unregistered / unannounced-registration), stated as the checker evaluates it on the
+   snapshots before and after an Enrol step.  Still missing: notifications, handler-identity,
+   handler-unregistered, the reset of unknown peers, ctx-not-cancelled, and the threading through
+   Check_C14.check_from. *)
+Theorem C14_checker_accepts_model_enrol_partial : forall np na ns evs c pe closed,
+  wf (evs ++ [Enrol c pe closed]) -> remote c < np ->
+  enrol_clause np na ns (run evs) c pe closed = true.
+Proof. exact enrol_clause_model. Qed.
+Print Assumptions C14_checker_accepts_model_enrol_partial.
+
 (* Blocking a peer (Service.blockPeer) does not touch the registry: a registered peer that is blocked
    stays registered until its last connection closes, and then gets its one notification like any
    other (C14_last_close applies unchanged).  Anchored on the source: blockPeer calls no registry
